@@ -287,6 +287,124 @@ theorem over_eq_seq {α : Type} {F : Bgzf.File} (hf : cfg.faults = false) (hch :
     rw [this, hcur]
     rfl
 
+/-! ### Executions exist: every call returns -/
+
+theorem script_len_ge {s t : State} {l : Label} {e : Option Ev} (h : next cfg s l = some (e, t)) :
+    s.script.length ≤ t.script.length + 1 := by
+  cases l with
+  | wk f => rw [(wk_frame h).2.2.2.2.1]; exact Nat.le_succ _
+  | api c f =>
+    by_cases hc : s.cons = .idle
+    · have h' : apiStep cfg s c f = some (e, t) := h
+      unfold apiStep at h'
+      simp only [hc] at h'
+      cases hs : s.script with
+      | nil => simp [hs] at h'
+      | cons op rest =>
+        simp only [hs] at h'
+        cases op <;> simp only at h' <;> (step_cases h' <;> simp)
+    · rw [script_same h hc]; exact Nat.le_succ _
+
+theorem Path.head {s u t : State} (hsu : Step cfg s u) (h : Path cfg u t) : Path cfg s t := by
+  induction h with
+  | refl => exact .tail .refl hsu
+  | tail _ hst ih => exact .tail ih hst
+
+/-- From a state before or inside the call, some continuation brings the consumer back between calls with the
+call's operation consumed (dead-lock freedom + the global measure; no fairness needed). -/
+theorem call_returns_from {c0 : Blk} {cl : Call} {rest : List Op} (hc : cfg.OK) (hf : cfg.faults = false) :
+    ∀ (u : State), Reachable cfg u → Op.nexts ∉ u.script → Op.nexts ∉ rest →
+    ((u.cons = .idle ∧ u.script = cl.op :: rest ∧ u.cur = c0) ∨
+     (u.script = rest ∧ ∃ e, seqNext cfg.chain c0 cl = ⟨some e, cfg.chain e⟩ ∧
+        ((∃ i, u.cons = .scan e i) ∨ u.cons = .fetch e ∨ u.cons = .sel e ∨ u.cons = .sync e ∨
+         ((u.cons = .drain e ∨ u.cons = .send e) ∧ u.cur.base = some e))) ∨
+     (u.script = rest ∧ (∃ ok, u.cons = .ret ok) ∧ u.cur = seqNext cfg.chain c0 cl)) →
+    ∃ t, Path cfg u t ∧ t.cons = .idle ∧ t.script = rest := by
+  intro u
+  generalize hm : gmu cfg u = m
+  induction m using Nat.strongRecOn generalizing u with
+  | _ m ih =>
+    intro hr hn hnr hmid
+    have hlen : rest.length ≤ u.script.length ∧ (u.cons ≠ .idle → u.script = rest) := by
+      rcases hmid with ⟨_, h2, _⟩ | ⟨h1, e0, _, hcons⟩ | ⟨h1, ⟨ok, h2⟩, _⟩
+      · rw [h2]; exact ⟨by simp, fun h => absurd ‹u.cons = .idle› h⟩
+      · exact ⟨by rw [h1]; exact Nat.le_refl _, fun _ => h1⟩
+      · exact ⟨by rw [h1]; exact Nat.le_refl _, fun _ => h1⟩
+    have hnd : ¬ ApiDone u := by
+      rintro (⟨h1, h2⟩ | h1)
+      · rcases hmid with ⟨_, h3, _⟩ | ⟨_, e0, _, hcons⟩ | ⟨_, ⟨ok, h3⟩, _⟩
+        · rw [h2] at h3; cases h3
+        · rcases hcons with ⟨i, h4⟩ | h4 | h4 | h4 | ⟨h4 | h4, _⟩ <;> rw [h1] at h4 <;> cases h4
+        · rw [h1] at h3; cases h3
+      · rcases hmid with ⟨h3, _, _⟩ | ⟨_, e0, _, hcons⟩ | ⟨_, ⟨ok, h3⟩, _⟩
+        · rw [h1] at h3; cases h3
+        · rcases hcons with ⟨i, h4⟩ | h4 | h4 | h4 | ⟨h4 | h4, _⟩ <;> rw [h1] at h4 <;> cases h4
+        · rw [h1] at h3; cases h3
+    rcases inv_progress (inv_reachable hc hr) with ⟨l, e, v, hst⟩ | hdone
+    · have hd := gmu_decreases (inv_reachable hc hr) hst hn
+      have hrv : Reachable cfg v := .step hr ⟨l, e, hst⟩
+      have hph : Ph cfg c0 cl rest v := by
+        have hpu : Ph cfg c0 cl rest u := by
+          rcases hmid with h | h | h
+          · exact Or.inl h
+          · exact Or.inr (Or.inl h)
+          · exact Or.inr (Or.inr (Or.inl h))
+        cases l with
+        | api c f => exact ph_api (exact_reachable hf hr) hnr hpu hst
+        | wk f => exact ph_wk hpu hst
+      rcases hph with h | h | h | ⟨h1, h2, _⟩ | h | h
+      · obtain ⟨t, hp, h1, h2⟩ := ih (gmu cfg v) (hm ▸ hd.1) v rfl hrv hd.2 hnr (Or.inl h)
+        exact ⟨t, Path.head ⟨l, e, hst⟩ hp, h1, h2⟩
+      · obtain ⟨t, hp, h1, h2⟩ := ih (gmu cfg v) (hm ▸ hd.1) v rfl hrv hd.2 hnr (Or.inr (Or.inl h))
+        exact ⟨t, Path.head ⟨l, e, hst⟩ hp, h1, h2⟩
+      · obtain ⟨t, hp, h1, h2⟩ := ih (gmu cfg v) (hm ▸ hd.1) v rfl hrv hd.2 hnr (Or.inr (Or.inr h))
+        exact ⟨t, Path.head ⟨l, e, hst⟩ hp, h1, h2⟩
+      · exact ⟨v, .tail .refl ⟨l, e, hst⟩, h2, h1⟩
+      · exact absurd h (inv_reachable hc hrv).nopanic
+      · exfalso
+        by_cases hci : u.cons = .idle
+        · -- before the call: one step consumes at most the call's operation
+          have h1 := script_len_ge hst
+          rcases hmid with ⟨_, h2, _⟩ | ⟨_, e0, _, hcons⟩ | ⟨_, ⟨ok, h2⟩, _⟩
+          · rw [h2] at h1; simp at h1; omega
+          · rcases hcons with ⟨i, h4⟩ | h4 | h4 | h4 | ⟨h4 | h4, _⟩ <;> rw [hci] at h4 <;> cases h4
+          · rw [hci] at h2; cases h2
+        · have hs := hlen.2 hci
+          have : v.script = u.script := by
+            cases l with
+            | api c f => exact script_same hst hci
+            | wk f => exact (wk_frame hst).2.2.2.2.1
+          rw [this, hs] at h; exact Nat.lt_irrefl _ h
+    · exact absurd hdone hnd
+
+theorem calls_no_nexts {α : Type} (F : Bgzf.File) (p : Prog α) (c : Blk) : Op.nexts ∉ p.calls F c := by
+  induction p generalizing c with
+  | done a => simp [Prog.calls]
+  | call cl k ih =>
+    simp only [Prog.calls, List.mem_cons, not_or]
+    exact ⟨by cases cl <;> simp [Call.op], ih _ _⟩
+
+/-- **Executions exist.**  With the calls the program makes as the consumer's script (followed by anything
+without `nexts`), the program runs over the protocol to its end, for every rd ≥ 2. -/
+theorem over_exists {α : Type} {F : Bgzf.File} (hc : cfg.OK) (hf : cfg.faults = false)
+    (hch : cfg.chain = chainOf F) (p : Prog α) : ∀ (s : State) (tl : List Op), Reachable cfg s →
+    s.cons = .idle → s.script = p.calls F s.cur ++ tl → Op.nexts ∉ tl → ∃ a t, Over cfg F p s a t := by
+  induction p with
+  | done a => intro s tl _ _ _ _; exact ⟨a, s, .done⟩
+  | call cl k ih =>
+    intro s tl hr hci hs hn
+    simp only [Prog.calls, List.cons_append] at hs
+    have hnr : Op.nexts ∉ (k (blockOf F (seqNext (chainOf F) s.cur cl))).calls F (seqNext (chainOf F) s.cur cl) ++ tl := by
+      simp only [List.mem_append, not_or]; exact ⟨calls_no_nexts F _ _, hn⟩
+    have hns : Op.nexts ∉ s.script := by
+      rw [hs]; simp only [List.mem_cons, not_or]
+      exact ⟨by cases cl <;> simp [Call.op], hnr⟩
+    obtain ⟨t, hp, h1, h2⟩ := call_returns_from (c0 := s.cur) (cl := cl) hc hf s hr hns hnr (Or.inl ⟨hci, hs, rfl⟩)
+    have hcur := call_installs hf hr hci hs hnr hp h1 h2
+    rw [hch] at hcur
+    obtain ⟨a, u, ho⟩ := ih (blockOf F t.cur) t tl (path_reachable hr hp) h1 (by rw [h2, hcur]) hn
+    exact ⟨a, u, .call hci hs hp h1 h2 ho⟩
+
 open Hts.Model.Bgzf in
 theorem tracks_new {F : File} (hwf : WF F) {r0 : Reader} (h0 : Reader.new F = .ok r0) :
     Tracks F r0 ∧ blkOf r0.cur = ⟨some 0, chainOf F 0⟩ := by
